@@ -101,7 +101,7 @@ def run_(tier):
         "traces_validated_against_impl": len(byid),
         "evaluations": len(cases), "distinct_nontrivial": len(outcomes),
         "rule": "inputs: hand-written class representatives, 1-3 stacked structured mutations of every fixture profile "
-                "(YAML line/token level) and data (JSON tree level), raw bytes; every call under recover() and a 30 s "
+                "(YAML line/token level) and data (JSON tree level), raw bytes; every call under recover() and a 45 s "
                 "watchdog, with and without an event channel; distinct = distinct (entry, number of events seen, outcome)",
         "outcomes": {"%s/ev%d/%s" % k: v for k, v in sorted(outcomes.items())},
         "samples": [{"profile": vlib.trunc(c["profile"], 160), "data": vlib.trunc(c["data"], 100), "entry": c["entry"],
